@@ -578,6 +578,95 @@ def gen_redef(rng, H):
     return first + "\n" + second + "\n" + (use + "\n" if expect != "reject" and "zz" not in toks else ""), expect
 
 
+
+# --- redefinition after use (6.10.3p2 on a macro that has been expanded) ----------------------------------
+def gen_reuse(rng, H):
+    """a macro set; uses of each macro with and without white space in front of the macro name (after `[`, `(`,
+    an operator, as the first token of an argument, at the start of a line); the same `#define` lines again
+    (byte-identical, or with another amount of white space where there is some, or -- the recorded finding
+    macroequal-ignores-space -- with white space at other places); uses again"""
+    objs = rng.sample(OBJ, rng.randint(1, 3))
+    funs = rng.sample(FUN, rng.randint(0, 2))
+    sig = {f: rng.randint(1, 2) for f in funs}
+    defs = {}
+
+    def render(name, toks, seps, wide):
+        s = "#define " + name
+        if name in sig:
+            s += "(" + (" , " if wide else ",").join(PARAMS[:sig[name]]) + ")"
+        body = ""
+        for k, (t, sp_) in enumerate(zip(toks, seps)):
+            gap = (rng.choice(["  ", "\t", " /*x*/ "]) if wide else " ") if sp_ else ""
+            body += gap + t
+        return s + body
+
+    for n in objs + funs:
+        ps = PARAMS[:sig[n]] if n in sig else []
+        toks = []
+        for _ in range(rng.choice([1, 1, 2, 3, 5])):
+            r = rng.random()
+            if ps and r < 0.4:
+                toks.append(rng.choice(ps))
+            elif r < 0.5 and n != objs[0]:
+                toks.append(objs[0])
+            elif r < 0.7:
+                toks.append(rng.choice(["x", "y", "v"]))
+            elif r < 0.85:
+                toks.append(rng.choice(["1", "42", "0x1F"]))
+            else:
+                toks.append(rng.choice(["+", "-", "*", "<", "=="]))
+        seps = [True]
+        body = toks[0]
+        for t in toks[1:]:
+            b = rng.random() < 0.6 or needs_space(body, t)
+            seps.append(b)
+            body += (" " if b else "") + t
+        defs[n] = (toks, seps)
+
+    def inv(n):
+        if n in sig:
+            return n + rng.choice(["", " "]) + "(" + ",".join(rng.choice(["1", "x", "(2,y)", "v+1"]) for _ in range(sig[n])) + ")"
+        return n
+
+    def uses():
+        out = []
+        for n in rng.sample(sorted(defs), len(defs)):
+            for _ in range(rng.choice([1, 1, 2, 3])):
+                c = rng.choice(["a[%s]", "(%s)", "-%s", "1+%s", "g(%s, 2)", "g(2,%s)", "%s x", " %s", "x %s", "x = %s;",
+                                "!%s"] + (["%s(%%s)" % f for f in funs if sig[f] == 1 and f != n]))
+                H["reuse:ctx " + c.replace("%s", "M")] += 1
+                out.append(c % inv(n))
+        return out
+
+    lines = [render(n, defs[n][0], defs[n][1], False) for n in defs]
+    first = dict(zip(defs, lines))
+    lines += uses()
+    for n in rng.sample(sorted(defs), rng.randint(1, len(defs))):
+        r = rng.random()
+        toks, seps = defs[n]
+        if r < 0.6:
+            lines.append(first[n])
+            H["reuse:identical"] += 1
+        elif r < 0.85:
+            lines.append(render(n, toks, seps, True))
+            H["reuse:other-amount-of-space"] += 1
+        else:
+            cand = [k for k in range(1, len(toks)) if not needs_space(toks[k - 1], toks[k])]
+            if cand:
+                k = rng.choice(cand)
+                seps2 = list(seps)
+                seps2[k] = not seps2[k]
+                lines.append(render(n, toks, seps2, False))
+                H["reuse:space-elsewhere(known finding)"] += 1
+            else:
+                lines.append(first[n])
+                H["reuse:identical"] += 1
+        if rng.random() < 0.5:
+            lines += uses()[:2]
+    lines += uses()
+    return "\n".join(lines) + "\n"
+
+
 # --- invalid input (diagnostics) -------------------------------------------------------------------
 def gen_error(rng, H):
     k = rng.choice(["hashhash", "hash-nonparam", "hash-end", "va-nonvariadic", "va-object", "dup-param", "param-syntax",
@@ -1363,6 +1452,13 @@ def run(ck):
         red = [gen_redef(rng, H) for _ in range(200 if quick else 2500)]
         examine(X, [t for t, _ in red], "redefinitions", asan=60 if quick else 500)
         ck.sample({"redefinition": red[0][0]})
+    # 3b. redefinition of a macro that has been expanded (own generator state, as for 2c)
+    if not ck.violations:
+        import random
+        rng_r = random.Random("c12-reuse-%r" % (rng.getstate()[1][0],))
+        reuse = [gen_reuse(rng_r, H) for _ in range(150 if quick else 1500)]
+        examine(X, reuse, "redefine-after-use", asan=40 if quick else 300)
+        ck.sample({"redefinition after use": reuse[0][:600]})
     # 4. diagnostics
     if not ck.violations:
         errs = [gen_error(rng, H) for _ in range(200 if quick else 1200)]
